@@ -348,9 +348,9 @@ Proof. unfold repr53b. cbn [odd_part]. destruct (odd_part p). reflexivity. Qed.
 Definition exact_hyps (u : str) (prefixes : list str) (sg ds pre un : str) (n F a : positive) : Prop :=
   In (u, prefixes) spec_systems /\
   (sg = [] \/ sg = [43%N] \/ sg = [45%N]) /\
-  forallb c_digit ds = true /\ ds <> [] /\
+  digits ds = true /\ ds <> [] /\
   (pre = [] \/ In pre prefixes) /\ In un units3 /\
-  dvalN ds 0 = Npos n /\
+  dvalN (map asc ds) 0 = Npos n /\
   Zpos F = match pre with [] => 1 | _ => spec_base u pre ^ spec_exp pre end /\
   repr53b F = true /\
   Zpos n * Zpos F = Zpos a * (if is_bit un then 8 else 1) /\
@@ -403,7 +403,7 @@ Lemma ex_magnitude u prefixes sg ds pre un n F a (HH : exact_hyps u prefixes sg 
 Proof.
   pose proof HH as HH0. destruct HH as [HS [Hsg [Hds [Hne [Hpre [Hun [Hn [HF [HrF [Hprod Ha]]]]]]]]]].
   set (neg := beq sg [45%N]) in *. set (k := if is_bit un then 3 else 0) in *.
-  rewrite (float_of_signed_ascii_digits sg ds Hsg Hds Hne). fold neg. rewrite Hn.
+  rewrite (float_of_signed_digits sg ds Hsg Hds Hne). fold neg. rewrite Hn.
   unfold f_of_decimal. replace (400 <=? 0) with false by reflexivity.
   replace (Z.of_nat (length ds) + 0 <=? -400) with false by lia.
   replace (0 <=? 0) with true by reflexivity.
@@ -483,7 +483,7 @@ Proof.
   intros HH. pose proof HH as HH0.
   destruct HH as [HS [Hsg [Hds [Hne [Hpre [Hun [Hn [HF [HrF [Hprod Ha]]]]]]]]]].
   assert (NF : numform (sg ++ ds)).
-  { exists sg, [], [], ds. repeat split; auto. apply c_digit_is_digit. exact Hds. }
+  { exists sg, [], [], ds. repeat split; auto. }
   assert (E1 : string_to_bytes (sg ++ ds ++ pre ++ un) u false = Ok (NFloat (float_of_small_int (beq sg [45%N]) a))).
   { rewrite app_assoc. rewrite (string_to_bytes_eval u prefixes HS (sg ++ ds) pre un false NF Hpre Hun).
     destruct (ex_result _ _ _ _ _ _ _ _ _ HH0) as [r [Hr ->]]. exact Hr. }
@@ -501,6 +501,83 @@ Example exact_minus_16Mbit_SI : exact_hyps (lit "SI") si_prefixes (lit "-") (lit
 Proof. unfold exact_hyps. repeat split; try reflexivity; try (vm_compute; tauto); try (vm_compute; congruence). Qed.
 Example exact_big_bits : exact_hyps (lit "mixed") mixed_prefixes [] (lit "72057594037927928") [] (lit "b") 72057594037927928 1 9007199254740991.
 Proof. unfold exact_hyps. repeat split; try reflexivity; try (vm_compute; tauto); try (vm_compute; congruence). Qed.
+Example exact_arabic_indic : exact_hyps (lit "mixed") mixed_prefixes (lit "+") [1635%N; 1634%N] (lit "ki") (lit "bit") 32 1024 4096.
+Proof. unfold exact_hyps. repeat split; try reflexivity; try (vm_compute; tauto); try (vm_compute; congruence). Qed.
 Example exact_3KiB_value :
   string_to_bytes (lit "3KiB") (lit "IEC") true = Ok (NInt 3072).
 Proof. exact (proj2 (exact_when_representable _ _ _ _ _ _ _ _ _ exact_3KiB)). Qed.
+
+(* ---------- oslo_utils.units: the SI / IEC constants agree with base ^ exponent ---------- *)
+
+(* every constant of units.py whose name is a key of the exponent table is base^exponent with base 1024
+   when the name ends in i and 1000 otherwise; and the 20 SI / IEC names are all there *)
+Definition units_ok : bool :=
+  forallb (fun nv => match lookup (fst nv) unit_prefix_exponent with
+                     | Some e => snd nv =? (if ends_with_i (fst nv) then 1024 else 1000) ^ e
+                     | None => true
+                     end) units_constants &&
+  forallb (fun p => match lookup p units_constants with
+                    | Some v => v =? 1000 ^ spec_exp p
+                    | None => false
+                    end) si_prefixes &&
+  forallb (fun p => negb (ends_with_i p) ||
+                    match lookup p units_constants with
+                    | Some v => v =? 1024 ^ spec_exp p
+                    | None => false
+                    end) iec_prefixes.
+Lemma units_ok_true : units_ok = true.
+Proof. vm_compute. reflexivity. Qed.
+
+Theorem units_agree :
+  (forall nm v e, In (nm, v) units_constants -> lookup nm unit_prefix_exponent = Some e ->
+                  v = (if ends_with_i nm then 1024 else 1000) ^ e) /\
+  (forall p, In p si_prefixes -> lookup p units_constants = Some (1000 ^ spec_exp p)) /\
+  (forall p, In p iec_prefixes -> ends_with_i p = true -> lookup p units_constants = Some (1024 ^ spec_exp p)).
+Proof.
+  pose proof units_ok_true as U. unfold units_ok in U.
+  apply andb_true_iff in U. destruct U as [U U3]. apply andb_true_iff in U. destruct U as [U1 U2].
+  rewrite forallb_forall in U1, U2, U3.
+  split; [|split].
+  - intros nm v e HI HL. specialize (U1 _ HI). cbn [fst snd] in U1. rewrite HL in U1. apply Z.eqb_eq in U1. exact U1.
+  - intros p HI. specialize (U2 _ HI). destruct (lookup p units_constants) as [v|]; [|discriminate].
+    apply Z.eqb_eq in U2. subst v. reflexivity.
+  - intros p HI HE. specialize (U3 _ HI). rewrite HE in U3. cbn [negb orb] in U3.
+    destruct (lookup p units_constants) as [v|]; [|discriminate].
+    apply Z.eqb_eq in U3. subst v. reflexivity.
+Qed.
+
+(* magnitude zero (any number of zero digits, any sign): the result is a zero, return_int gives 0 *)
+Theorem exact_zero u prefixes sg ds pre un :
+  In (u, prefixes) spec_systems -> (sg = [] \/ sg = [43%N] \/ sg = [45%N]) ->
+  digits ds = true -> ds <> [] -> dvalN (map asc ds) 0 = 0%N ->
+  (pre = [] \/ In pre prefixes) -> In un units3 ->
+  string_to_bytes (sg ++ ds ++ pre ++ un) u false = Ok (NFloat (S754_zero (beq sg [45%N]))) /\
+  string_to_bytes (sg ++ ds ++ pre ++ un) u true = Ok (NInt 0).
+Proof.
+  intros HS Hsg Hds Hne Hz Hpre Hun.
+  assert (NF : numform (sg ++ ds)) by (exists sg, [], [], ds; repeat split; auto).
+  assert (E1 : string_to_bytes (sg ++ ds ++ pre ++ un) u false = Ok (NFloat (S754_zero (beq sg [45%N])))).
+  { rewrite app_assoc. rewrite (string_to_bytes_eval u prefixes HS (sg ++ ds) pre un false NF Hpre Hun).
+    unfold spec_eval. rewrite (float_of_signed_digits sg ds Hsg Hds Hne), Hz. cbn [f_of_decimal].
+    set (neg := beq sg [45%N]).
+    match goal with |- bind ?X _ = _ => assert (D : X = Ok (S754_zero neg)) end.
+    { destruct (is_bit un); [|reflexivity]. unfold f_div_int. rewrite float_of_8. unfold eight, f_div. cbn.
+      rewrite Bool.xorb_false_r. reflexivity. }
+    rewrite D. cbn [bind].
+    destruct pre as [|c p']; [reflexivity|].
+    destruct Hpre as [Hq|Hq]; [discriminate|].
+    destruct (system_facts u prefixes HS) as [base [rx [L _]]].
+    destruct (table_facts u prefixes base rx (c :: p') HS L Hq) as [_ [_ [_ [[x [Fx Ffin]] F8]]]].
+    unfold f_mul_int. rewrite Fx. cbn [bind finish].
+    destruct (spec_base u (c :: p') ^ spec_exp (c :: p')) as [|pF|pF] eqn:EF; try lia.
+    pose proof (float_of_pos_sign pF x Fx) as Sx.
+    destruct x as [s|s| |s m e]; try discriminate; try contradiction; subst s; unfold f_mul; cbn; rewrite Bool.xorb_false_r; reflexivity. }
+  split; [exact E1|]. rewrite return_int_is_ceil, E1. reflexivity.
+Qed.
+
+Example exact_zero_example :
+  string_to_bytes (lit "-000QiB") (lit "IEC") true = Ok (NInt 0).
+Proof.
+  apply (proj2 (exact_zero (lit "IEC") iec_prefixes (lit "-") (lit "000") (lit "Qi") (lit "B")
+                  ltac:(vm_compute; tauto) ltac:(auto) eq_refl ltac:(discriminate) eq_refl ltac:(right; vm_compute; tauto) ltac:(vm_compute; tauto))).
+Qed.
